@@ -307,12 +307,13 @@ func runC08(c *core.Ctx) {
 	// ---- whitespace between the smallest parts: filter name and colon, object and dot, brackets and index ---------------------
 	// (the first three are known findings on the pinned tree, see known_findings.txt: the lexer makes "name:" and ".name" one token)
 	if c.Shard == 12%c.NShards && c.Begin("whitespace between the smallest parts") {
-		b := map[string]any{"a": []any{10, 20, 30}, "m": map[string]any{"k": "v", "A": "x", "1": "one"}, "s": "x"}
+		b := map[string]any{"a": []any{10, 20, 30}, "m": map[string]any{"k": "v", "A": "x", "1": "one"}, "s": "x", "u8": uint8(65), "u16": uint16(65), "u64": uint64(65), "up": uintptr(65), "nu": gen.NUint(65), "i8": int8(65)}
 		for _, cs := range []struct{ id, src, want string }{
 			{"filter-colon", "{{ s | append : \"a\" }}", "xa"}, {"dot-after-space", "{{ a . size }}", "3"}, {"dot-then-space", "{{ a. size }}", "3"},
 			{"dot-before-space", "{{ a .size }}|{{ m .k }}", "3|v"}, {"brackets", "{{ a[ 1 ] }}|{{ a [1] }}|{{ m[ 'k' ] }}|{{ a[\n-1\n] }}", "20|20|v|30"}, {"filter-args", "{{ s|append:\"a\"|append:\t\"b\" |\tappend:  \"c\" }}", "xabc"},
 			{"pipes-and-commas", "{{ s\n|\nreplace:\n\"x\"\n,\n\"y\"\n|\nupcase }}", "Y"}, {"range-dots", "{% for i in ( 1 .. 3 ) %}{{ i }}{% endfor %}|{% for i in (1..3)%}{{i}}{%endfor%}", "123|123"},
-			{"number-keys-are-missing-keys", "[{{ m[65] }}][{{ m[1] }}][{{ m[true] }}][{{ m[1.0] }}]", "[][][][]"}} {
+			{"number-keys-are-missing-keys", "[{{ m[65] }}][{{ m[1] }}][{{ m[true] }}][{{ m[1.0] }}]", "[][][][]"},
+			{"unsigned-number-keys-are-missing-keys", "[{{ m[u8] }}][{{ m[u16] }}][{{ m[u64] }}][{{ m[up] }}][{{ m[nu] }}][{{ m[i8] }}]", "[][][][][][]"}} {
 			expectOut(c, e, cs.src, b, cs.want, "whitespace-in-parts|"+cs.id, "whitespace between the parts of an object never changes its meaning (and an index that is not a key of the map yields nil)", nil)
 			c.Obs("smallest_parts_cases", 1)
 			c.Distinct("smallparts", cs.id)
